@@ -4,6 +4,7 @@ import (
 	"go/token"
 	"go/types"
 	"sort"
+	"strconv"
 	"strings"
 
 	"golang.org/x/tools/go/ssa"
@@ -151,6 +152,83 @@ func runC13(c *Ctx) {
 	c.c13Composite()
 	c.c13Drops()
 	c.c13Streams()
+	c.c13Formats()
+}
+
+// c13Formats: "delivered intact". A message that travels through the format-string position of a printf-like
+// function is rewritten whenever it contains a '%': the only format strings admitted in the logging packages are
+// constants (or the format parameter of a function that is itself printf-like, forwarded unchanged).
+func (c *Ctx) c13Formats() {
+	c.rule("L7", "every printf-like call in the logging packages has a constant format string: message text only ever travels as an operand, never as the format", 8)
+	printfLike := func(sig *types.Signature) int {
+		ps := sig.Params()
+		if !sig.Variadic() || ps.Len() < 2 {
+			return -1
+		}
+		fp := ps.At(ps.Len() - 2)
+		b, ok := fp.Type().Underlying().(*types.Basic)
+		if !ok || b.Kind() != types.String || fp.Name() != "format" {
+			return -1
+		}
+		sl, ok := ps.At(ps.Len() - 1).Type().(*types.Slice)
+		if !ok {
+			return -1
+		}
+		if it, ok := sl.Elem().Underlying().(*types.Interface); !ok || it.NumMethods() != 0 {
+			return -1
+		}
+		return ps.Len() - 2
+	}
+	for _, rel := range c13Pkgs {
+		for _, f := range c.srcFuncs(rel) {
+			n := 0
+			allInstrs(f, func(in ssa.Instruction) {
+				cc, ok := in.(ssa.CallInstruction)
+				if !ok {
+					return
+				}
+				com := cc.Common()
+				idx := printfLike(com.Signature())
+				if idx < 0 {
+					return
+				}
+				args := com.Args
+				if !com.IsInvoke() && com.Signature().Recv() != nil {
+					args = args[1:]
+				}
+				if idx >= len(args) {
+					return
+				}
+				n++
+				key := fname(outermost(f)) + "/format"
+				if f != outermost(f) {
+					key = fname(outermost(f)) + "/closure/format"
+				}
+				if n > 1 {
+					key += "#" + strconv.Itoa(n)
+				}
+				c.FuncsSeen[fname(outermost(f))] = true
+				fa := args[idx]
+				if _, isConst := fa.(*ssa.Const); isConst {
+					c.ok("L7", key, c.ipos(in), "constant format")
+					return
+				}
+				if p, isParam := fa.(*ssa.Parameter); isParam && p.Parent() == f {
+					if j := printfLike(f.Signature); j >= 0 {
+						off := 0
+						if f.Signature.Recv() != nil {
+							off = 1
+						}
+						if f.Params[j+off] == p {
+							c.ok("L7", key, c.ipos(in), "forwards the format parameter of a printf-like function unchanged")
+							return
+						}
+					}
+				}
+				c.violate("L7", key, c.ipos(in), "the format string of "+calleeFull(com)+" is computed at run time ("+fa.String()+"): message text placed in the format position is rewritten wherever it contains a '%' (\"100% done\" reaches the sink as \"100%!d(MISSING)one\") — the message is not delivered intact")
+			})
+		}
+	}
 }
 
 func (c *Ctx) methodsOf(rel string, tn *types.Named) []*ssa.Function {
